@@ -3,7 +3,7 @@
 A history is a list of JSON command dicts starting with an Init command.  The harness replays
 histories on the real library and writes one trace record per command; TLC evaluates the
 property monitors of the trace specification on every record and prints a RESULT line."""
-import json, os, shutil, subprocess, sys, time, concurrent.futures as cf
+import json, os, re, shutil, subprocess, sys, time, concurrent.futures as cf
 import vcommon as vc
 
 
@@ -170,6 +170,9 @@ def run_histories(pid, harness, module, histories, variant="asan", nchunks=None,
             stats["tlc_wall"] += out["tlc_wall"]
     if not keep:
         shutil.rmtree(workdir, ignore_errors=True)
+    # a re-run (pid "Cxxr...") whose harness or TLC run failed has not confirmed or refuted anything: never read it as "holds"
+    if stats["infra"] and re.match(r"^C\d\dr", pid):
+        raise SystemExit("INFRA: re-run failed: %s" % str(stats["infra"][0])[:1500])
     return failures, counters, stats
 
 
